@@ -198,7 +198,12 @@ func (h *hostile) baseMessage(p *Peer) (string, []byte) {
 		sess = live[h.c(len(live), "which")]
 		seid = sess.UPSEID
 	}
-	switch h.c(17, "mtype") {
+	switch h.c(18, "mtype") {
+	case 17:
+		// well-formed Association Setup Request whose Node ID is an FQDN with octets
+		// that are not UTF-8 / not printable (FQDN labels are arbitrary octet strings)
+		fq := []string{"smf\xff.example", "smf\x00.core", "\xc3\x28.example", "smf.example"}[h.c(4, "fqdn")]
+		return "AssociationSetupRequest+FQDN", Marshal(message.NewAssociationSetupRequest(p.NextSeq(), ie.NewNodeID("", "", fq), ie.NewRecoveryTimeStamp(p.TS)))
 	case 0:
 		return "HeartbeatRequest", Marshal(message.NewHeartbeatRequest(p.NextSeq(), ie.NewRecoveryTimeStamp(p.TS), nil))
 	case 1:
